@@ -3,6 +3,7 @@ package core
 import (
 	"go/token"
 	"go/types"
+	"sync"
 
 	"golang.org/x/tools/go/ssa"
 )
@@ -190,7 +191,8 @@ type CondEdge struct {
 	Branch bool
 }
 
-// ControlDeps returns the transitive set of branch edges blk is control dependent on.
+// ControlDeps returns the transitive set of branch edges blk is control dependent on, ignoring
+// loop-carried dependences (branches that execute after blk and reach it again only through a back edge).
 func (c *Ctx) ControlDeps(blk *ssa.BasicBlock) []CondEdge {
 	fn := blk.Parent()
 	pd := c.PostDom(fn)
@@ -213,6 +215,9 @@ func (c *Ctx) ControlDeps(blk *ssa.BasicBlock) []CondEdge {
 			}
 			if a != b && pd.PostDominates(b, a) {
 				continue // b always runs after a: not dependent on a's branch
+			}
+			if b.Dominates(a) {
+				continue // a runs after b: it can influence b only through a back edge (next iteration)
 			}
 			for k, s := range a.Succs {
 				if s == b || pd.PostDominates(b, s) {
@@ -498,6 +503,17 @@ type Loop struct {
 
 // Loops returns the natural loops of fn (one per header, bodies of back edges merged).
 func Loops(fn *ssa.Function) []*Loop {
+	if l, ok := loopCache.Load(fn); ok {
+		return l.([]*Loop)
+	}
+	l := computeLoops(fn)
+	loopCache.Store(fn, l)
+	return l
+}
+
+var loopCache sync.Map
+
+func computeLoops(fn *ssa.Function) []*Loop {
 	byHdr := map[*ssa.BasicBlock]*Loop{}
 	var order []*ssa.BasicBlock
 	for _, b := range fn.Blocks {
@@ -554,6 +570,17 @@ type RangeLoop struct {
 // RangeLoops recognises forward slice ranges structurally: header has phi(-1, phi+1), `phi+1 < len(S)`,
 // len(S) computed before the loop.
 func RangeLoops(fn *ssa.Function) []*RangeLoop {
+	if l, ok := rangeLoopCache.Load(fn); ok {
+		return l.([]*RangeLoop)
+	}
+	l := computeRangeLoops(fn)
+	rangeLoopCache.Store(fn, l)
+	return l
+}
+
+var rangeLoopCache sync.Map
+
+func computeRangeLoops(fn *ssa.Function) []*RangeLoop {
 	var out []*RangeLoop
 	for _, l := range Loops(fn) {
 		h := l.Header
@@ -630,4 +657,27 @@ func (r *RangeLoop) ElemOf(v ssa.Value) bool {
 		return false
 	}
 	return ia.X == r.Slice && ia.Index == r.Next
+}
+
+// Guards returns every branch edge that dominates blk: conditions that hold on all paths reaching blk.
+func Guards(blk *ssa.BasicBlock) []CondEdge {
+	var out []CondEdge
+	for _, a := range blk.Parent().Blocks {
+		if len(a.Succs) != 2 {
+			continue
+		}
+		iff, ok := a.Instrs[len(a.Instrs)-1].(*ssa.If)
+		if !ok {
+			continue
+		}
+		for k, s := range a.Succs {
+			if a.Succs[0] == a.Succs[1] {
+				continue
+			}
+			if EdgeDominates(a, s, blk) {
+				out = append(out, CondEdge{iff, k == 0})
+			}
+		}
+	}
+	return out
 }
